@@ -411,8 +411,10 @@ class DoubleExponentialCurrent(SpikeMixin, InfernoSynapse):
             # bounded selector for overbounding
             bounded_selector = 0
 
-            # retrieve most recent value
+            # retrieve most recent value, repeated for each selected delay
             res = self.pos_current_.peek() - self.neg_current_.peek()
+            if selector.ndim > res.ndim:
+                res = res.unsqueeze(-1).expand_as(selector)
 
         # delayed access
         else:
